@@ -451,6 +451,47 @@ fn is_shorthand_binding(m: &Module<()>, g: &scope::Group) -> bool {
   })
 }
 
+/// Hint-dependent expression trees of type Option<int> with exactly `k` internal nodes.
+fn spelling_trees_exact(k: usize) -> Vec<String> {
+  if k == 0 {
+    return vec!["Option.None()".into(), "Option.Some(1)".into(), "d".into()];
+  }
+  let mut out = vec![];
+  for e in spelling_trees_exact(k - 1) {
+    out.push(format!("Main.id({e})"));
+    out.push(format!("{{ let z{k} = 1; {e} }}"));
+    out.push(format!("Main.app(() -> {e})"));
+  }
+  for left in 0..k {
+    let ls = spelling_trees_exact(left);
+    let rs = spelling_trees_exact(k - 1 - left);
+    for a in &ls {
+      for b in &rs {
+        out.push(format!("if c {{ {a} }} else {{ {b} }}"));
+        out.push(format!("match o {{ None -> {a}, Some(_) -> {b} }}"));
+        out.push(format!("Main.first({a}, {b})"));
+      }
+    }
+  }
+  out
+}
+
+const SPELLING_CONTEXTS: [(&str, &str); 7] = [
+  ("closed-parameter", "Main.takeOpt(@)"),
+  ("generic-function-closed-parameter", "Main.pickA(@, 0)"),
+  ("generic-function-closed-parameter-last", "Main.pickB(0, @)"),
+  ("annotated-let", "{ let v: Option<int> = @; Main.takeOpt(v) }"),
+  ("generic-method-of-instantiated-class", "Box.init(1).w(@, 0)"),
+  ("generic-parameter", "Main.size(@)"),
+  ("lambda-result", "Main.app(() -> Main.takeOpt(@))"),
+];
+
+fn spelling_module(body: &str) -> String {
+  format!(
+    "class Option<T>(None, Some(T)) {{}}\nclass Box<T>(val v: T) {{\n  method <R> w(a: Option<T>, r: R): int = match a {{ None -> 0, Some(_) -> 1 }}\n}}\nclass Main {{\n  function <T> id(x: T): T = x\n  function <T> first(a: T, b: T): T = a\n  function <T> app(f: () -> T): T = f()\n  function <T> size(a: Option<T>): int = match a {{ None -> 0, Some(_) -> 1 }}\n  function takeOpt(a: Option<int>): int = match a {{ None -> 0, Some(n) -> n + 1 }}\n  function <T> pickA(a: Option<int>, b: T): int = Main.takeOpt(a)\n  function <T> pickB(b: T, a: Option<int>): int = Main.takeOpt(a)\n  function run(c: bool, o: Option<bool>, d: Option<int>): int =\n    {body}\n  function main(): unit = {{\n    Process.println(Str.fromInt(Main.run(true, Option.Some(true), Option.Some(5))));\n    Process.println(Str.fromInt(Main.run(false, Option.None(), Option.None())))\n  }}\n}}\n"
+  )
+}
+
 struct Program {
   name: String,
   modules: Vec<(String, String)>,
@@ -458,6 +499,8 @@ struct Program {
   entry: Option<String>,
   /// is the unrewritten program expected to be accepted?
   accepted: bool,
+  /// generated spelling family: no expectation on the verdict, no std modules needed
+  generated: bool,
 }
 
 struct Verdict {
@@ -466,14 +509,20 @@ struct Verdict {
 }
 
 fn evaluate(modules: &[(String, String)], entry: Option<&str>, fuel: u64) -> Result<Verdict, String> {
+  evaluate_opt(modules, entry, fuel, true)
+}
+
+fn evaluate_opt(modules: &[(String, String)], entry: Option<&str>, fuel: u64, with_std: bool) -> Result<Verdict, String> {
   guarded(|| {
     let mut heap = Heap::new();
     let mut handles = HashMap::new();
     for (m, t) in modules {
       handles.insert(mod_ref(&mut heap, m), t.clone());
     }
-    for (m, s) in samlang_parser::builtin_std_raw_sources(&mut heap) {
-      handles.entry(m).or_insert(s);
+    if with_std {
+      for (m, s) in samlang_parser::builtin_std_raw_sources(&mut heap) {
+        handles.entry(m).or_insert(s);
+      }
     }
     let mut es = ErrorSet::new();
     let mut parsed = HashMap::new();
@@ -486,13 +535,24 @@ fn evaluate(modules: &[(String, String)], entry: Option<&str>, fuel: u64) -> Res
     }
     let behaviour = entry.map(|e| {
       let er = mod_ref(&mut heap, e);
-      let out = refsem::run_main_with_config(
-        &heap,
-        &checked,
-        er,
-        fuel,
-        refsem::Config { equality: refsem::EqualityMode::Structural, ..Default::default() },
-      );
+      let out = if with_std {
+        refsem::run_main_with_config(
+          &heap,
+          &checked,
+          er,
+          fuel,
+          refsem::Config { equality: refsem::EqualityMode::Structural, ..Default::default() },
+        )
+      } else {
+        // generated spelling programs: call depth <= 12, run on the worker's own stack
+        refsem::run_main_on_this_thread(
+          &heap,
+          &checked,
+          er,
+          fuel,
+          refsem::Config { equality: refsem::EqualityMode::Structural, max_call_depth: 40, ..Default::default() },
+        )
+      };
       (out.lines, format!("{:?}", out.ending))
     });
     Verdict { accepted: true, behaviour }
@@ -513,7 +573,7 @@ fn main() {
   for f in corpus::verif_files().into_iter().filter(|f| f.name.starts_with("corpus/bind/")) {
     let mut modules = std_mods.clone();
     modules.push(("Main".to_string(), f.text.clone()));
-    programs.push(Program { name: f.name.clone(), modules, target: "Main".into(), entry: Some("Main".into()), accepted: true });
+    programs.push(Program { name: f.name.clone(), modules, target: "Main".into(), entry: Some("Main".into()), accepted: true, generated: false });
   }
   // every tests/ module as the rewrite target inside the whole tests program, with a synthesised
   // entry `Main.main() = X.run()` when the module has a class of its own name with run()
@@ -540,7 +600,7 @@ fn main() {
       }
       None => None,
     };
-    programs.push(Program { name: f.name.clone(), modules, target: f.module.clone(), entry, accepted: true });
+    programs.push(Program { name: f.name.clone(), modules, target: f.module.clone(), entry, accepted: true, generated: false });
   }
   // rejected programs: one ill-typed variant per corpus/bind file and per small test (operand swap)
   let mut rejected: Vec<Program> = vec![];
@@ -551,27 +611,54 @@ fn main() {
         let mutated = format!("{}{}{}", &text[..pos], repl, &text[pos + needle.len()..]);
         let mut modules = p.modules.clone();
         modules.iter_mut().find(|m| m.0 == p.target).unwrap().1 = mutated;
-        rejected.push(Program { name: format!("{} [{tag}]", p.name), modules, target: p.target.clone(), entry: None, accepted: false });
+        rejected.push(Program { name: format!("{} [{tag}]", p.name), modules, target: p.target.clone(), entry: None, accepted: false, generated: false });
       }
     }
   }
   programs.extend(rejected);
 
+  // generated spelling family: every hint-dependent tree x every context (see DESIGN 10.5)
+  let max_internal = if run.quick() { 2 } else { 3 };
+  let mut n_generated = 0u64;
+  for k in 0..=max_internal {
+    for t in spelling_trees_exact(k) {
+      for (ci, (cname, ctx)) in SPELLING_CONTEXTS.iter().enumerate() {
+        // quick: full trees in three contexts, trees <= 1 internal node in the others
+        if run.quick() && k == 2 && ![1, 5, 0].contains(&ci) {
+          continue;
+        }
+        programs.push(Program {
+          name: format!("spelling {cname}: {}", ctx.replace('@', &t)),
+          modules: vec![("Main".to_string(), spelling_module(&ctx.replace('@', &t)))],
+          target: "Main".into(),
+          entry: Some("Main".into()),
+          accepted: true,
+          generated: true,
+        });
+        n_generated += 1;
+      }
+    }
+  }
   let evaluated = AtomicU64::new(0);
   let per_kind: Mutex<BTreeMap<&'static str, u64>> = Mutex::new(BTreeMap::new());
   let samples: Mutex<Vec<Value>> = Mutex::new(vec![]);
   let distinct: Mutex<HashSet<(String, &'static str, String)>> = Mutex::new(HashSet::new());
   let fuel = 400_000u64;
 
-  for prog in &programs {
-    let base = match evaluate(&prog.modules, prog.entry.as_deref(), fuel) {
+  let generated_rejected = AtomicU64::new(0);
+  let (generated, listed): (Vec<&Program>, Vec<&Program>) = programs.iter().partition(|p| p.generated);
+  let run_program = |prog: &Program| {
+    let base = match evaluate_opt(&prog.modules, prog.entry.as_deref(), fuel, !prog.generated) {
       Ok(v) => v,
       Err(p) => {
         run.violation(&format!("panic:{p}"), &format!("checker/refsem panicked on {}: {p}", prog.name), json!({"program": prog.name}));
-        continue;
+        return;
       }
     };
-    if base.accepted != prog.accepted {
+    if prog.generated && !base.accepted {
+      generated_rejected.fetch_add(1, Ordering::Relaxed);
+    }
+    if !prog.generated && base.accepted != prog.accepted {
       machinery_failure(&format!("{}: expected accepted={}, got {}", prog.name, prog.accepted, base.accepted));
     }
     // rewrite sites from this program's own parse / check
@@ -589,12 +676,14 @@ fn main() {
         parsed.insert(*m, samlang_parser::parse_source_module_from_text(s, *m, &mut heap, &mut es));
       }
       let (checked, _) = samlang_checker::type_check_sources(&parsed, &mut es);
-      let ch = if prog.accepted { checked.get(&target_ref) } else { None };
+      // rejected generated programs keep their checked tree: sites whose inferred types are
+      // closed (no placeholder) are still instances of `making an inferred type explicit`
+      let ch = if prog.accepted || prog.generated { checked.get(&target_ref) } else { None };
       let needle = format!("from {}", prog.target);
       let imported_elsewhere = prog.modules.iter().any(|(m, t)| *m != prog.target && t.lines().any(|l| l.trim_end().trim_end_matches(';').ends_with(&needle)));
       rewrites_for(&text, &heap, &parsed[&target_ref], ch, &prog.target, imported_elsewhere)
     };
-    rewrites.par_iter().for_each(|rw| {
+    let each = |rw: &Rewrite| {
       evaluated.fetch_add(1, Ordering::Relaxed);
       *per_kind.lock().unwrap().entry(rw.kind).or_insert(0) += 1;
       distinct.lock().unwrap().insert((prog.name.clone(), rw.kind, rw.what.clone()));
@@ -604,7 +693,7 @@ fn main() {
         modules.push(extra.clone());
       }
       let payload = || json!({"program": prog.name, "kind": rw.kind, "what": rw.what, "rewritten_module": rw.new_text, "extra_module": rw.extra_module});
-      match evaluate(&modules, prog.entry.as_deref(), fuel) {
+      match evaluate_opt(&modules, prog.entry.as_deref(), fuel, !prog.generated) {
         Err(p) => run.violation(&format!("panic:{}:{p}", rw.kind), &format!("panicked after {} ({}) on {}: {p}", rw.kind, rw.what, prog.name), payload()),
         Ok(v) => {
           if v.accepted != base.accepted {
@@ -627,8 +716,15 @@ fn main() {
       if sp.len() < 400 {
         sp.push(json!({"program": prog.name, "kind": rw.kind, "what": rw.what}));
       }
-    });
-  }
+    };
+    if prog.generated {
+      rewrites.iter().for_each(each);
+    } else {
+      rewrites.par_iter().for_each(each);
+    }
+  };
+  listed.iter().for_each(|p| run_program(p));
+  generated.par_iter().for_each(|p| run_program(p));
   let pool = samples.lock().unwrap().clone();
   let n = distinct.lock().unwrap().len();
   run.finish(
@@ -638,6 +734,8 @@ fn main() {
       "rule": "every applicable instance of: consistent rename of one local binding; every permutation (<=4 items) / adjacent transpositions + reversal of toplevels and of class members; wrapping each expression in ( ) and in { }; annotating each un-annotated let with the checker's inferred type; making inferred type arguments explicit; moving one class into a new module with imports both ways - applied as text edits to accepted programs (corpus/bind, tests/ modules with a synthesised entry) and to rejected variants; distinct = distinct (program, rewrite kind, site)",
       "samples": spaced_samples(&pool, 8),
       "programs": programs.len(),
+      "generated_spelling_programs": {"count": n_generated, "rejected_by_the_checker_in_every_spelling": generated_rejected.load(Ordering::Relaxed), "max_internal_nodes": max_internal, "contexts": SPELLING_CONTEXTS.len(),
+        "grammar": "E ::= Option.None() | Option.Some(1) | d | Main.id(E) | { let z<depth> = 1; E } | Main.app(() -> E) | if c {E} else {E} | match o {None -> E, Some(_) -> E} | Main.first(E, E)"},
       "rewrite_instances_per_kind": per_kind.lock().unwrap().clone(),
       "exhaustive": true,
     }),
